@@ -37,7 +37,7 @@ LOOPS = {"vp_bytes.0": 26, "vpb_init.0": 130, "vpb_append.0": 130, "vp_evb_byte.
          "harness_read.0": 28, "harness_read.1": 28, "harness_read.2": 28, "harness_write.0": 24, "harness_write.1": 24, "vp_io_readv.0": 50, "vp_io_readv.1": 50, "vp_io_readv.2": 50,
          "vp_io_writev.0": 50, "vp_io_writev.1": 50, "vp_io_writev.2": 50, "vp_io_pread.0": 18, "vp_io_mmap.0": 26}
 
-def ob(name, entry, defs, desc, ndebug=False, timeout=400, mem_gb=5, **kw):
+def ob(name, entry, defs, desc, ndebug=False, timeout=900, mem_gb=8, **kw):
     o = dict(name=name + ("__ndebug" if ndebug else ""), harness=H, entry=entry,
              defines=["LIBEVENT_VERIF_MIN_BUFFER_SIZE=64", "VP_OBJ=%d" % VP_OBJ] + defs,
              desc=desc + (" (NDEBUG build)" if ndebug else ""), unwind=6,
@@ -50,16 +50,36 @@ def ob(name, entry, defs, desc, ndebug=False, timeout=400, mem_gb=5, **kw):
     o.update(kw)
     return o
 
-KF_TEXT = ["C16: sendfile asked to send more bytes than requested"]
+KF_TEXT = ["C16: sendfile asked to send more bytes than requested", "C16: bytes offered to the kernel exceed the request", "C16: evbuffer_write removed more than requested"]
+
+HM_R = [-1, 0, 1, 5, 12, 17, 30]
+FR = ["fails", "0", "3", "20", "5000"]
+HM_W = [-1, 0, 1, 3, 4, 7, 100]
 
 def obligations(tier):
     obs = []
-    for s, d in SHAPES.items():
-        for nd in ([False] if tier == "quick" else [False, True]):
-            obs.append(ob("read_shape%d" % s, "harness_read", ["VP_READ", "SHAPE=%d" % s], "evbuffer_read from [%s]" % d, ndebug=nd))
-            wdefs = ["VP_WRITE", "SHAPE=%d" % s] + (["KF_EXCLUDE_SENDFILE_HOWMUCH"] if s == 8 else [])
-            obs.append(ob("write_shape%d" % s, "harness_write", wdefs, "evbuffer_write/_atmost from [%s]%s" % (d, " (excluding the KF-C16-sendfile-howmuch cases)" if s == 8 else ""), ndebug=nd))
-    obs.append(ob("write_shape8_kf", "harness_write", ["VP_WRITE", "SHAPE=8", "KF_ONLY_SENDFILE_HOWMUCH"],
-                  "evbuffer_write_atmost with howmuch smaller than a leading sendfile chain (KF-C16-sendfile-howmuch)",
+    if tier == "quick":
+        rplan = [(s, f) for s in (1, 2, 4, 5, 8) for f in (0, 2, 4)]
+        wplan = [(s, h) for s in (1, 2, 3, 4, 5, 6, 7, 9) for h in (0, 4)] + [(8, 5)]
+        twins = []
+    else:
+        rplan = [(s, f) for s in SHAPES for f in range(5)]
+        wplan = [(s, h) for s in SHAPES for h in range(7) if not (s == 8 and h in (2, 3, 4))]
+        twins = [("r", 2, 2), ("r", 4, 4), ("w", 5, 0), ("w", 7, 4), ("w", 8, 5)]
+    for s, f in rplan:
+        obs.append(ob("read_shape%d_fion%s" % (s, FR[f]), "harness_read", ["VP_READ", "SHAPE=%d" % s, "VP_FRI=%d" % f],
+                      "evbuffer_read from [%s], FIONREAD %s, howmuch in %s" % (SHAPES[s], FR[f], HM_R)))
+    for s, h in wplan:
+        obs.append(ob("write_shape%d_hm%d" % (s, HM_W[h]), "harness_write", ["VP_WRITE", "SHAPE=%d" % s, "VP_HMI=%d" % h] + (["KF_EXCLUDE_SENDFILE_HOWMUCH"] if s == 8 else []),
+                      "evbuffer_write%s from [%s], every accepted count" % ("" if HM_W[h] == -1 else "_atmost(howmuch=%d)" % HM_W[h], SHAPES[s])))
+    for k, s, x in twins:
+        if k == "r":
+            obs.append(ob("read_shape%d_fion%s" % (s, FR[x]), "harness_read", ["VP_READ", "SHAPE=%d" % s, "VP_FRI=%d" % x], "evbuffer_read from [%s], FIONREAD %s" % (SHAPES[s], FR[x]), ndebug=True))
+        else:
+            obs.append(ob("write_shape%d_hm%d" % (s, HM_W[x]), "harness_write", ["VP_WRITE", "SHAPE=%d" % s, "VP_HMI=%d" % x] + (["KF_EXCLUDE_SENDFILE_HOWMUCH"] if s == 8 else []),
+                          "evbuffer_write_atmost(howmuch=%d) from [%s]" % (HM_W[x], SHAPES[s]), ndebug=True))
+    # finding KF-C16-sendfile-howmuch: fails on the unpatched tree (expect_fail), passes with fixes/C16-sendfile-howmuch.diff
+    obs.append(ob("write_shape8_kf", "harness_write", ["VP_WRITE", "SHAPE=8", "VP_HMI=3", "KF_ONLY_SENDFILE_HOWMUCH"],
+                  "evbuffer_write_atmost(howmuch=3) with a leading 6-byte sendfile chain (KF-C16-sendfile-howmuch)",
                   expect_fail=KF_TEXT, known_finding="KF-C16-sendfile-howmuch"))
     return obs
